@@ -240,3 +240,26 @@ func mentionsFieldR(info *types.Info, body ast.Node, e ast.Node, fld *types.Var)
 	visit(e, 0)
 	return found
 }
+
+// rootExpr strips selectors, indexing, dereferences, address-of and parentheses: a.b[i].c, (*a).b, &a -> a.
+func rootExpr(e ast.Expr) ast.Expr {
+	for {
+		switch x := e.(type) {
+		case *ast.ParenExpr:
+			e = x.X
+		case *ast.SelectorExpr:
+			e = x.X
+		case *ast.IndexExpr:
+			e = x.X
+		case *ast.StarExpr:
+			e = x.X
+		case *ast.UnaryExpr:
+			if x.Op.String() != "&" {
+				return e
+			}
+			e = x.X
+		default:
+			return e
+		}
+	}
+}
